@@ -25,6 +25,7 @@ import (
 	"io"
 	"net/http"
 	"net/url"
+	"slices"
 	"time"
 
 	"github.com/rs/zerolog"
@@ -186,10 +187,18 @@ func (e Endpoint) Hash() []byte {
 	hash.Write(stringx.ToBytes(e.URL))
 	hash.Write(stringx.ToBytes(e.Method))
 
+	// the iteration order over a map is random, the hash must however be stable
+	headerNames := make([]string, 0, len(e.Headers))
+	for k := range e.Headers {
+		headerNames = append(headerNames, k)
+	}
+
+	slices.Sort(headerNames)
+
 	buf := bytes.NewBufferString("")
-	for k, v := range e.Headers {
+	for _, k := range headerNames {
 		buf.Write(stringx.ToBytes(k))
-		buf.Write(stringx.ToBytes(v))
+		buf.Write(stringx.ToBytes(e.Headers[k]))
 	}
 
 	hash.Write(buf.Bytes())
